@@ -349,6 +349,7 @@ func checkC02(c *mc.Ctx) {
 	_ = skipped
 	c.Ev.AddScenario(mc.Scenario{Name: "single-unit-packetisation", SpaceSize: total, Executed: done, Exhaustive: done == total,
 		Bound: "11 unit kinds x pointer_field {0,1,7,50} x trailing stuffing {0,1,5,190} x {AF stuffing, 0xFF padding} x {flush by next unit, flush at EOF} x (greedy + every single chunk deviation c in 1..183 at every packet + pairs over {1,2,3,91,182,183})"})
+	c02PMTBeforePAT(c)
 	c02Merges(c)
 	c.Ev.Require("early-psi-position-checked", "flush-at-eof", "one-byte-first-chunk", "multi-pid-merge", "eight-pids-eof-drain")
 }
@@ -442,4 +443,68 @@ func SplitHeaderStream(seed int64) []byte {
 		}
 	}
 	return out
+}
+
+// c02PMTBeforePAT: packets of the PMT PID that arrive before the PAT announcing it must not
+// spoil the early return of the PMTs that follow the PAT (the PID's kind is a property of the
+// programme map at the time a unit completes, not of the first packet ever seen on the PID).
+func c02PMTBeforePAT(c *mc.Ctx) {
+	pat := modelPAT(1, 0x1000)
+	mk := func(n int, v uint8) SUnit {
+		d := modelPMT(1, 0x100, n)
+		return PSIUnit(0x1000, 0, [][]byte{SecPMT(d, ref.SecHdr{CNI: true, Version: v})}, []ExpData{{Kind: "PMT", Table: d}})
+	}
+	uPAT := PSIUnit(0, 0, [][]byte{SecPAT(pat, ref.SecHdr{CNI: true})}, []ExpData{{Kind: "PAT", Table: pat}})
+	var n int64
+	for _, early := range []int{1, 2} { // PMT packets seen before the PAT: a whole 1-packet PMT, or the first packet of a longer one
+		for _, lateN := range []int{2, 30} {
+			cc0, cc1 := uint8(0), uint8(4)
+			var ps []*ref.Pkt
+			first := Packetize(mk(29, 0), nil, &cc1, true) // content distinct from the PMTs that follow the PAT
+			if early == 1 {
+				cc1 = 4
+				first = Packetize(mk(1, 0), nil, &cc1, true)
+			}
+			ps = append(ps, first[:early]...)
+			ps = append(ps, Packetize(uPAT, nil, &cc0, true)...)
+			ps = append(ps, first[early:]...)
+			type want struct {
+				exp ExpData
+				end int
+			}
+			var wants []want
+			for k := 0; k < 2; k++ {
+				u := mk(lateN+k, uint8(k+1))
+				ps = append(ps, Packetize(u, nil, &cc1, true)...)
+				wants = append(wants, want{u.Exp[0], len(ps) * 188})
+			}
+			ps = append(ps, &ref.Pkt{PID: 0x1fff, HasPL: true, Payload: bytes.Repeat([]byte{0xff}, 184)})
+			b := EncodePkts(ps)
+			cr := &countingReader{r: bytes.NewReader(b)}
+			d := astits.NewDemuxer(context.Background(), cr, astits.DemuxerOptPacketSize(188))
+			wi := 0
+			for calls := 0; calls < 64; calls++ {
+				x, err := d.NextData()
+				if err != nil {
+					break
+				}
+				if x.PID != 0x1000 || wi >= len(wants) {
+					continue
+				}
+				if ok, _ := wants[wi].exp.Matches(x); !ok {
+					continue // the PMT whose packets straddle the PAT: unconstrained
+				}
+				if cr.n != wants[wi].end {
+					c.Rep.Report("psi-read-ahead:pmt-pid-seen-before-pat", map[string]any{"kind": "stream", "bytes": mc.Hex(b), "message": fmt.Sprintf("PMT %d returned with the reader at offset %d; its final packet ends at %d", wi, cr.n, wants[wi].end)})
+				}
+				wi++
+			}
+			if wi != len(wants) {
+				c.Rep.Report("unit-missing:pmt-pid-seen-before-pat", map[string]any{"kind": "stream", "bytes": mc.Hex(b), "message": fmt.Sprintf("%d of %d PMTs that follow the PAT were delivered", wi, len(wants))})
+			}
+			n++
+			c.Ev.Class("pmt-pid-seen-before-pat", 1)
+		}
+	}
+	c.Ev.AddScenario(mc.Scenario{Name: "pmt-pid-seen-before-pat", SpaceSize: n, Executed: n, Exhaustive: true, Bound: "PMT packets (a whole unit / the first packet of a unit) before the PAT, then two PMTs of 1 and 3+ packets: each must be returned when its final packet has been read"})
 }
